@@ -24,9 +24,10 @@ TRUSTED_BASE = [
 ]
 ASSUMPTIONS = [
     "values are restricted to what the formats can carry: valid Unicode text, XML 1.0 characters and names for XML; non-finite doubles are included (a raised error would satisfy the property)",
-    "the catalogue of typed targets is a finite sample of the type universe (35 C++ types); the library has no dynamic tree type of its own",
+    "the catalogue of typed targets is a finite sample of the type universe (42 C++ types); the library has no dynamic tree type of its own",
     "the model of the adapter is tied to /repo by correspondence on the generated cases only",
-    "without a BOM, UTF-16/32 JSON re-renderings are generated only when they start with two ASCII characters (RapidJSON's detection heuristic, third party)",
+    "RapidJSON's / pugixml's encoding detection of BOM-less streams is mirrored in the model driver's glue (third-party behaviour, validated per document)",
+    "a white-space-only XML text value is re-rendered literally only (pugixml keeps it when written with character references or CDATA; the model mirrors the literal case)",
 ]
 
 
